@@ -253,7 +253,11 @@ def run(ctx, ck):
         d_ = dict(grids)
         pat = _re.compile(r"^np\.meshgrid\((.+)\)\[(\d)\]$")
         ma, mz = pat.match(d_['azi']), pat.match(d_['zen'])
-        ok = bool(ma and mz) and ma.group(1) == mz.group(1) and {ma.group(2), mz.group(2)} == {'0', '1'}
+        if not (ma and mz):
+            # the arrays do not come out of the walk as components of a meshgrid: nothing can be said
+            raise AnalysisError('%s: the angle arrays handed to Far_Field_Pattern are not understood (azi = %s, zen = %s)'
+                                % (far.qual, d_['azi'][:60], d_['zen'][:60]))
+        ok = ma.group(1) == mz.group(1) and {ma.group(2), mz.group(2)} == {'0', '1'}
         if ok:
             args_ = [x_.strip() for x_ in ma.group(1).split(', ')]
             lists = [x_ for x_ in args_ if '=' not in x_]
